@@ -28,6 +28,14 @@ def c18(tier):
     return [R("pbuilder")]
 
 
+def c05(tier):
+    return [R("fitgrid")]
+
+
+def c04(tier):
+    return [R("fitenv"), R("fitgrid")]
+
+
 def c12(tier):
     return [
         R("stats", args={"faults": 1}),
@@ -59,7 +67,7 @@ def c01(tier):
 
 
 def c02(tier):
-    return [R("probstate")]
+    return [R("probstate"), R("fitgrid")]
 
 
 def c03(tier):
@@ -83,6 +91,8 @@ def c11(tier):
 
 
 PLAN = {
+    "C04": c04,
+    "C05": c05,
     "C01": c01,
     "C02": c02,
     "C03": c03,
@@ -123,6 +133,8 @@ LEVEL = {
 }
 
 RULES = {
+    "C04": "(a) fitenv: scripts of model answers explored depth-first with deviation bounding (default answer = 'much better, consistent slope'; 30 alternative answers + NaN/inf/Err; script depth 4 quick / 6 thorough, <= 2 / 3 deviations) for every solver configuration (patience {1,2,6,100} x tolerances {default, 1e-3, 0} x step bound {0.1,100} x P {1,2} x seq/par x with/without fault answers); every leaf is one complete real fit; (b) fitgrid: real models (Z1, Z2, Z4, O'Leary) from 7 starts incl. far and sign-flipped ones x 24 solver configurations x weights x noise x S x provenance/flavour/width; non-trivial = successful fits whose final state was fully checked",
+    "C05": "complete product grid over the certified families (single decay+offset, two decays+offset with ratio 3/5/10, three decays with ratio 3/5, Gaussian+decay+offset): generating parameters x coefficients x N in {32,64,200} x weights {none, ones, ramp, 1/sigma} x noise {none, 1e-4, 1e-3, 1e-2 (where certified), alternating} x starts truth*(1+-d)^P, d in {0.02,0.05} x S in {1,2,3} x f64/f32 x hand/built x seq/par; every case is one real fit judged by reproduction, wrss <= wrss(truth) and reference-Jacobian stationarity; every case is distinct; non-trivial = fits judged completely",
     "C18": "every call sequence of length <= L (3 quick, 4 thorough) over observations(rows in {0,1,2,3,4} x cols in {0,1,2,3}), weights(len in {0,1,2,3,4}, all-ones | varied), epsilon(+-1e-2, +-1e-8, 0[, 1e-300, -0]) for the constructors new/new_parallel/mrhs/mrhs_parallel x model output length {0,1,3} x {f64,f32}; the 3-sample model has an exactly diagonal basis diag(1, d2) with d2 = 1e-5 or 0.4375*eps so that the threshold in force is observable in the coefficients; every sequence is a distinct case",
     "C17": "environment = which of the 6 closures (3 basis functions, 3 derivatives) of a builder-made model returns a vector of wrong length (0, N-1, N+1, 2N), singly, in all pairs with cancelling totals, and two triples; within each environment ALL op sequences up to depth d (3 quick, 4 thorough) over 12 ops: eval, eval_partial_deriv(k) for k in {0,1,P,P+1,usize::MAX}, set_params(good a1|a2), set_params of length 0, P-1, P+1, 2P; every step is compared with the reference (last accepted parameters, exact expected matrices, expected error kind and payload); every sequence counts as distinct and non-trivial",
     "C16": "case = one builder-made model with injectively tagged closures: model parameter list = every permutation of {a,b,c} and {a,b,c,d}; a function over every ordered subset (arity 1..4) with every order of supplying its derivatives, with an invariant function before/after/absent; pairs of functions over all pairs of ordered subsets; arity 5..10 on a 10-parameter model with every rotation, every transposition of the identity and of a scattered assignment, three derivative orders, three rotations of the model list; f32 and f64; oracle = exact (bitwise) comparison of eval, every eval_partial_deriv, params round-trip and parameters(); every model is distinct and non-trivial",
@@ -142,6 +154,8 @@ RULES = {
 }
 
 ASSUMPTIONS = {
+    "C04": ["the scripted model is a legal SeparableNonlinearModel: its value is a function of alpha (answers are remembered per parameter vector)", "scripted fits exercise the optimizer's control flow with M=1, N=2; the linear algebra is exercised by the fitgrid part"],
+    "C05": ["certified region (measured over 8 noise seeds): two-decay instances up to noise 1e-3, three-decay instances up to 1e-3 with N >= 64 (1e-4 for N = 32); outside it fits may legitimately fail and are not part of the grid", "tolerances: reproduction 1e-9 (f64) / 2e-5 (f32) relative; stationarity 1e-5 / 5e-2"],
     "C18": ["reference validation function in harness/src/bin/pbuilder.rs", "threshold cases within a factor 2 of the singular value are not judged"],
     "C17": ["one 3-function / 2-parameter model with N = 4 samples is representative of the guards, which do not depend on the model's size"],
     "C16": ["tag encoding is injective: parameter values 3+2k, function tag 1000+j, derivative tag 2000+100j+q, x = 500+i are pairwise distinct and exactly representable in f32"],
